@@ -14,11 +14,11 @@
                 pre-scale mean is non-zero); numpy's norm is within one ulp of sqrt(dx*dx+dy*dy); the numpy
                 rotation is an isometry up to rounding; finiteness of IEEE results.
     Axioms: ONLY [C19_rescale_mean*], [C19_mean_nonzero], [C19_returned_mean], [C19_returned_distinct],
-    [C19_tail_bond_len], [C19_tail_mean] (square roots over the standard-library reals). *)
-From Coq Require Import List ZArith Bool QArith Reals.
+    [C19_tail_bond_len], [C19_tail_mean], [C19_align_isometry] (square roots over the standard-library reals). *)
+From Coq Require Import List ZArith Bool QArith Reals Permutation.
 From CGV Require Import Base.PyBase Geom.Num Gen.GeomGen Geom.IndexMap Geom.Scale Geom.Rotate
      Geom.ScaleProofs Geom.ScaleProofsR Geom.RotateProofs Geom.CisTrans Geom.CisTransProofs
-     Geom.Tail Geom.TailProofs Geom.TailProofsR.
+     Geom.Tail Geom.TailProofs Geom.TailProofsR Geom.Layouts Geom.LayoutsProofs.
 Import ListNotations.
 
 (** exactly the keys of the pre-scale dict, in the same order: one position per node *)
@@ -140,6 +140,47 @@ Theorem C19_tail_relabel : forall {M} (o : numops M) sq (f : Z -> Z) d al db edg
   = relabel_pos f (run_tail o sq d al db edges steps pos).
 Proof. exact @tail_relabel. Qed.
 
+(** ---------- the other two LAYOUT_METHODS (models Geom/Layouts.v; statements pinned / classified by tools/gen_geom.py).
+    vespr_refined_layout: the optimiser's rows ([opt], scipy) and the key order of the dict of the last vespr_layout
+    call ([vkeys]) are transcripts; [al] = cos/sin of the alignment (None: align_with is None). *)
+Theorem C19_refined_one_position_per_node : forall {M} (o : numops M) al nodes opt (pos : list (Z * @vec2 M)),
+  NoDup nodes -> refined_layout o al nodes opt = Ok pos -> map fst pos = nodes.
+Proof. exact @refined_one_position_per_node. Qed.
+Theorem C19_refined_own_row : forall {M} (o : numops M) al nodes vkeys rows (pos : list (Z * @vec2 M)) d j k,
+  vkeys = nodes -> NoDup nodes -> refined_layout o al nodes (Ok rows) = Ok pos -> nth_error vkeys j = Some k ->
+  nth_error (align_rows o al rows) j = Some (plookup d k pos).
+Proof. exact @refined_own_row. Qed.
+Theorem C19_refined_relabel : forall {M} (o : numops M) (f : Z -> Z) al nodes (opt : res (list (@vec2 M))),
+  (forall a b, f a = f b -> a = b) ->
+  refined_layout o al (map f nodes) opt = res_map (relabel_pos f) (refined_layout o al nodes opt).
+Proof. exact @refined_relabel. Qed.
+(** the alignment of the rows (both layouts, and vespr_layout's alignment block) preserves every distance *)
+Theorem C19_align_isometry : forall c s (a b : @vec2 R), (c * c + s * s = 1)%R ->
+  norm2 numR sqrt (v2sub numR (rot_cs numR (c, s) a) (rot_cs numR (c, s) b)) = norm2 numR sqrt (v2sub numR a b).
+Proof. exact rot_norm. Qed.
+(** circular_layout: [coords] (numpy) and the find_cycle result are transcripts; a cycle visiting every node exactly
+    once (what find_cycle returns on a ring graph) gives one position per node, the j-th visited node the j-th point *)
+Theorem C19_circular_one_position_per_node : forall {M} (o : numops M) mode al coords c nodes (pos : list (Z * @vec2 M)),
+  NoDup (map fst c) -> Permutation (map fst c) nodes ->
+  circular_layout_with o mode al coords (Ok c) = Ok pos -> Permutation (map fst pos) nodes.
+Proof. exact @circular_one_position_per_node. Qed.
+Theorem C19_circular_ith_coordinate : forall {M} (o : numops M) mode coords c (pos : list (Z * @vec2 M)) d j k,
+  NoDup (map fst c) -> circular_layout_with o mode None coords (Ok c) = Ok pos ->
+  nth_error (map fst c) j = Some k -> nth_error coords j = Some (plookup d k pos).
+Proof. exact @circular_ith_coordinate. Qed.
+Theorem C19_circular_relabel : forall {M} (o : numops M) (f : Z -> Z) mode al (coords : list (@vec2 M)) c,
+  (forall a b, f a = f b -> a = b) ->
+  circular_layout_with o mode al coords (Ok (relabel_edges f c))
+  = res_map (relabel_pos f) (circular_layout_with o mode al coords (Ok c)).
+Proof. exact @circular_relabel. Qed.
+(** circular_layout with align_with given, for the GENERATED classification of its alignment block (now
+    CircAlignUnbound: UnboundLocalError for every input - known finding circular_align_unbound_name); proved for every
+    value of the fact, so a repair keeps this file compiling and changes what the statement says *)
+Theorem C19_circular_align_status : forall {M} (o : numops M), circ_status o circ_align.
+Proof. exact @circular_align_status. Qed.
+Theorem C19_circular_align_status_all : forall {M} (o : numops M) mode, circ_status o mode.
+Proof. exact @circ_status_all. Qed.
+
 (** ---------- non-vacuity *)
 Example C19_nonvacuous_fix :
   let edges := [(0, 1); (1, 2); (2, 3)]%Z in
@@ -153,6 +194,13 @@ Example C19_nonvacuous_tail :
   mean_bond numR sqrt (fun k => plookup (0, 0)%R k pos) [(0, 1)%Z] <> 0%R /\
   plookup (0, 0)%R 0%Z pos <> plookup (0, 0)%R 1%Z pos /\ tail_ok [TAlign; TRescale; TAlign] = true.
 Proof. exact tail_nonvacuous. Qed.
+Example C19_nonvacuous_layouts :
+  let c := [(10, 11); (11, 12); (12, 10)]%Z in
+  NoDup (map fst c) /\ Permutation (map fst c) [12; 10; 11]%Z /\
+  circular_layout_with numQ CircAlignIgnored None [(1, 0); (0, 1); (1, 1)]%Q (Ok c)
+  = Ok [(10%Z, (1, 0)%Q); (11%Z, (0, 1)%Q); (12%Z, (1, 1)%Q)] /\
+  refined_layout numQ None [10; 11; 12]%Z (Ok [(1, 0); (0, 1); (1, 1)]%Q) = Ok [(10%Z, (1, 0)%Q); (11%Z, (0, 1)%Q); (12%Z, (1, 1)%Q)].
+Proof. exact layouts_nonvacuous. Qed.
 Example C19_nonvacuous_mean :
   let posf := fun k : Z => if Z.eqb k 0 then (0, 0)%R else (3, 4)%R in
   mean_bond numR sqrt posf [(0, 1)%Z] <> 0%R /\ (0 <= 2)%R.
@@ -193,3 +241,12 @@ Print Assumptions C19_tail_mean.
 Print Assumptions C19_generated_tail_has_one_rescale.
 Print Assumptions C19_tail_dict_fun.
 Print Assumptions C19_tail_relabel.
+Print Assumptions C19_refined_one_position_per_node.
+Print Assumptions C19_refined_own_row.
+Print Assumptions C19_refined_relabel.
+Print Assumptions C19_align_isometry.
+Print Assumptions C19_circular_one_position_per_node.
+Print Assumptions C19_circular_ith_coordinate.
+Print Assumptions C19_circular_relabel.
+Print Assumptions C19_circular_align_status.
+Print Assumptions C19_circular_align_status_all.
